@@ -68,6 +68,8 @@ THEOREMS = [
     "BeyondVerif.C13.man_ignition_tables",
     "BeyondVerif.C13.thrust_window_roundtrip",
     "BeyondVerif.C13.date_attr_shifts_window",
+    "BeyondVerif.C13.ud_prefix_tables",
+    "BeyondVerif.C13.ud_key_roundtrip",
     "BeyondVerif.C13W.mixed_scale_moves_instant",
     "BeyondVerif.C13W.oem_xml_noncartesian_form",
     "BeyondVerif.C13W.opm_keplerian_maneuver_lost",
@@ -88,55 +90,70 @@ THEOREMS = [
     "BeyondVerif.C13W.tdm_elevation_without_azimuth_ok",
     "BeyondVerif.C13W.tdm_two_paths_reload_as_list",
 ]
-LEVEL_TEXT = ("Lean theorems over a structural model of beyond/io/ccsds (element trees, tokenised KVN lines, xml2dict / kvn2dict, the eight "
-              "readers/writers): load_dump_id for WHOLE messages in XML for two message types — every well-formed OPM (ten frames, covariance "
-              "absent/own/QSW/TNW, any number of maneuvers of either kind in own/QSW/TNW with or without comment, any number of user-defined "
-              "fields, Keplerian block or not: opm_xml_load_dump_id) and every well-formed OMM (omm_xml_load_dump_id) is read back from what "
-              "the XML writer produced; for every list length the dict builder turns a run of same-tag siblings into the value (one) or the "
-              "list (two or more) and the readers' iteration returns exactly the written values (xml_group_roundtrip, by induction), "
-              "instantiated for every XML group: maneuvers, user-defined parameters, OEM state vectors and covariance blocks, TDM observations "
-              "of all four classes (any n >= 1). Tables regenerated from the source on every run and checked by `decide`: covariance key matrix "
-              "symmetric and equal to the writers' keys, OEM row keys, the ten frames, covariance and maneuver frame aliases invert (QSW, TNW), "
-              "written units known, which groups each reader wraps. Exact differential correspondence (message tokens at written precision, "
-              "error kinds) of the compiled model with the real dumps/loads for all four message types x both encodings x re-dump.")
-LEVEL_NOTE = ("whole-message load_dump_id is proved for OPM and OMM in XML; for OEM and TDM in XML only the groups (points, covariance blocks, "
-              "observations) are general theorems (covariance-to-point attachment, participants/path numbering and segment splitting are not), "
-              "and the four KVN encodings are covered by kernel-checked instances (Witness/C13.lean) and the exact correspondence only; one clause "
-              "is false of the current code (open finding: a multi-path TDM reloads as a list that dumps refuses); float formatting/parsing, lxml "
-              "and KVN tokenisation are parameters of the model; Lean kernel + propext/Classical.choice/Quot.sound")
-TECHNIQUE = ("Lean 4 proof by induction over sibling lists + kernel `decide` on tables regenerated from the Python AST and on concrete messages; "
+LEVEL_TEXT = ("Lean theorems over a structural model of beyond/io/ccsds (element trees, tokenised KVN lines, xml2dict / kvn2dict, the OEM / TDM line state "
+              "machines, the eight readers/writers). load_dump_id is proved for WHOLE messages of all four types in BOTH encodings, universally quantified, by "
+              "induction over the lists of segments / points / covariance blocks / maneuvers / observations / user-defined fields: opm_xml_load_dump_id, "
+              "opm_kvn_load_dump_id (kvn2dict groups the MAN_ lines into one dict per maneuver, comment attached), omm_xml_load_dump_id, omm_kvn_load_dump_id, "
+              "oem_xml_load_dump_id, oem_kvn_load_dump_id (each covariance block attached to the point of the same epoch, any number of segments), "
+              "tdm_xml_load_dump_id, tdm_kvn_load_dump_id (participants numbered in order of first appearance, PATH, split by path; the KVN metadata dict never "
+              "reset between segments). From them: kvn_xml_agree for the four types (opm_/omm_/oem_/tdm_kvn_xml_agree) and redump_total (what either reader "
+              "returns is accepted by both writers and is a fixed point of dump-then-load: opm_/omm_/oem_redump_total; tdm_redump_total_partial for a single "
+              "path). Dates: a secondary date labelled in the message's TIME_SYSTEM comes back identical, the instant of any date is kept iff the writer "
+              "converts or the clocks agree (stamp_*); the thrust window [start, stop) of a continuous maneuver dated by start / median / stop comes back "
+              "(thrust_window_roundtrip). Tables regenerated from the source on every run and checked by `decide`: covariance key matrix, OEM row keys, the ten "
+              "frames, covariance and maneuver frame aliases, written units, which groups each reader wraps, the date attribute printed as MAN_EPOCH_IGNITION, the "
+              "readers' date_pos, whether the writers convert time scales / forms / Keplerian maneuvers. Exact differential correspondence (message tokens at "
+              "written precision, error kinds, clock readings) of the compiled model with the real dumps/loads for all four types x both encodings x re-dump.")
+LEVEL_NOTE = ("whole-message theorems hold for well-formed objects: non-empty texts, one of the ten Earth-centred frames, covariance / maneuver frames own, QSW or TNW, "
+              "distinct epochs inside an ephemeris, at most nine participants per path, one time scale per message; five clauses are false of the current code and "
+              "kept as `_partial` theorems + kernel-checked counter-witnesses (open findings: multi-path TDM reloads as a list dumps refuses; dates labelled in "
+              "another scale than the message move by the scale offset — OPM maneuvers, OEM points, TDM observations; OEM XML writer refuses non-cartesian points; "
+              "Keplerian maneuvers not written); float formatting/parsing, Date arithmetic, lxml and the splitting of KVN text into tokens are parameters of the "
+              "model (exercised by the correspondence and the oracle); Lean kernel + propext/Classical.choice/Quot.sound")
+TECHNIQUE = ("Lean 4 proof by induction over line / sibling / segment lists + kernel `decide` on tables regenerated from the Python AST and on concrete messages; "
              "exact model/implementation correspondence through the line-protocol driver")
 TRUSTED = [
     "harness/props/C13.py read_tables(): AST extraction of units_dict keys, covariance key matrix / element names / key spelling, frame alias rules of "
-    "writers and readers, OEM KVN covariance row keys, OMM theories, TDM writer names / reader keys / metadata triggers, which XML groups each reader "
-    "wraps into a list, whether the OMM KVN writer needs data.tle and whether dumps accepts a list of sets -> Generated/CcsdsTables.lean; frame table from the live frame objects",
+    "writers (and the helpers they call) and readers, OEM KVN covariance row keys, OMM theories, TDM writer names / reader keys / metadata triggers, which XML groups each reader "
+    "wraps into a list, whether the OMM KVN writer needs data.tle and whether dumps accepts a list of sets -> Generated/CcsdsTables.lean; frame table from the live frame objects; "
+    "date attribute of a ContinuousMan printed as MAN_EPOCH_IGNITION, date_pos used by the readers, presence of a time-scale conversion / form conversion / Keplerian handling in the writers "
+    "-> Generated/CcsdsExtTables.lean",
     "float formatting (the writers' format specs, re-applied by the harness to the reloaded object) and float()/strptime parsing: texts are opaque tokens in the model",
     "lxml serialisation/parsing (element tree <-> text, pretty_print whitespace) and the splitting of KVN text into lines, `key = value [unit]` and whitespace-separated rows",
-    "correspondence: real dumps/loads (format by argument and by configuration) vs compiled Lean model on identical messages; exact comparison of all restored fields as written text, and of exception kinds",
+    "correspondence: real dumps/loads (format by argument and by configuration) vs compiled Lean model on identical messages; exact comparison of all restored fields as written text, of exception kinds, "
+    "of restored clock readings / labels (ext stamp), thrust windows (ext window), form and Keplerian handling (ext form, ext kepl)",
 ]
 ASSUMPTIONS = [
-    "Model/Ccsds.lean is hand-written, branch for branch after the Python; it is tied to the code by the regenerated tables and the exact correspondence run",
-    "unit conversion factors (units_dict values), Date arithmetic to the microsecond and numpy float parsing are outside the model; the oracle checks restored values with the property's tolerances (1 us, 1 mm, 1 mm/s, 1e-10 relative covariance)",
+    "Model/Ccsds.lean and Model/CcsdsExt.lean are hand-written, branch for branch after the Python; they are tied to the code by the regenerated tables and the exact correspondence run",
+    "unit conversion factors (units_dict values), Date arithmetic to the microsecond (incl. `date - duration / 2`), time-scale offsets and numpy float parsing are outside the model (offsets are parameters of "
+    "Model/CcsdsExt.lean); the oracle checks restored values with the property's tolerances (1 us, 1 mm, 1 mm/s, 1e-10 relative covariance)",
     "free texts (names, comments, user-defined values) are non-empty, do not start or end with blanks and contain none of '=', '[', 'COMMENT', line breaks; only Earth-centred frames (the ten of the quantifier); at most 9 TDM participants per path",
-    "KVN user-defined keys are modelled as a sub-dict instead of a key prefix; `key.startswith('MAN_')` is modelled on the seven MAN_ keys the writers produce",
+    "KVN user-defined keys are modelled as a sub-dict instead of a key prefix (the prefix arithmetic `k[13:]` is exercised by the oracle and the correspondence on names with underscores, digits, lower case, names that are "
+    "prefixes of each other or equal to CCSDS keywords); `key.startswith('MAN_')` is modelled on the seven MAN_ keys the writers produce",
+    "a secondary date labelled in another time scale than the message can only keep its instant, not its label (one TIME_SYSTEM per message): the oracle asks for the instant to 1 us and for the label only when it is the message's",
 ]
 NOT_COVERED = [
-    "whole-message round trip as a Lean theorem for OEM and TDM in XML (groups proved, assembly not) and for all four types in KVN (decide'd instances + exact correspondence only); kvn_xml_agree and redump_total as universally quantified theorems",
-    "interplanetary centres (CENTER_NAME other than EARTH), OMM ephemeris type / classification (XML writes constants 0 / U), continuous maneuvers shorter than 0.5 ms (reload as impulsive), acceleration columns of foreign OEMs",
+    "covariance / maneuver frames given as the NAME of an inertial frame (the orbit's own or another one): generated, checked by the oracle and the exact correspondence, but outside the well-formedness predicates of the whole-message theorems (own, QSW, TNW)",
+    "interplanetary centres (CENTER_NAME other than EARTH), OMM ephemeris type / classification (XML writes constants 0 / U), continuous maneuvers shorter than 0.5 ms (reload as impulsive), measures without a path (PVT: X, Y, ... are silently not written)",
     "string-level corner cases: texts containing '=', '[', 'COMMENT', leading/trailing blanks or that are empty/whitespace-only",
-    "clause false of the current code: a MeasureSet with several paths reloads as a list of sets that dumps() refuses (open finding C13-tdm-multi-path-reloads-as-list, proposed_fixes/C13-tdm-list-of-sets.diff not applied)",
+    "reader-only notations (default units, RTN, day-of-year dates, dates without fraction, comment lines, acceleration columns, theory SGP4, missing EPHEMERIS_TYPE / CLASSIFICATION_TYPE, centre in lower case) are checked by the oracle "
+    "(`variants`: same object decoded, re-dump possible) but not modelled; what RANGE_UNITS = s means is outside the statement (lead: tdm.py multiplies seconds by km * c with c in m/s, 1000 times too large)",
+    "clauses false of the current code (open findings, proposed fixes not applied): C13-tdm-multi-path-reloads-as-list; C13-mixed-scale-epoch-opm-maneuver / -oem-point / -tdm-observation; C13-oem-xml-dump-noncartesian-form; C13-opm-keplerian-maneuver",
 ]
 OPEN = [
-    "oem_xml_load_dump_id: assembling points_xml_roundtrip + oem_covs_xml_group with the attachment of each covariance to the point of the same epoch (distinct epochs) and the segment group",
-    "tdm_xml_load_dump_id: assembling observations_xml_roundtrip with collect_metadata (participant numbering, PATH) and the split by path",
-    "load_dump_id for the KVN encodings (kvn2dict maneuver grouping and the OEM / TDM line state machines), kvn_xml_agree, redump_total as ∀-theorems",
+    "generalise CovWf / OpmWf to frame tags that are names of other inertial frames (alias tables are the identity on them)",
+    "tdm_redump_total for several paths (false of the current code: open finding C13-tdm-multi-path-reloads-as-list)",
+    "a string-level model of the KVN tokenisation (`key = value [unit]`, COMMENT lines) instead of tokenised lines (the USER_DEFINED_ prefix is modelled separately: ud_key_roundtrip)",
 ]
-RULE = ("correspondence: objects generated from one PRNG (OPM: 10 frames x 6 scales, StateVector or Orbit, name/id as attributes or keyword arguments, kep on/off, covariance absent/own/QSW/TNW, "
-        "0-3 maneuvers impulsive/continuous in None/QSW/TNW with/without comment, user-defined fields absent/empty/1/2-4; OMM: via Tle or direct, covariance, user-defined; "
-        "OEM: 1-3 segments of 1-12 points with 0..n covariances, linear/lagrange, orders; TDM: 1-2 paths, 1-10 epochs, Range/Azimut/Elevation(/Doppler)), "
-        "format by fmt= (4/5) or configuration (1/5); per object 2 round trips + 4 re-dumps; a case is one request line, distinct = distinct line. "
-        "oracle: the same generators plus the 13 fixed witness objects, loads(dumps(x)) compared field by field with the property's tolerances, "
-        "KVN vs XML agreement, re-dump of everything loaded; failure family = exception type @ innermost beyond/io/ccsds function (or field that differs) + input class")
+RULE = ("correspondence: objects generated from one PRNG (OPM: 10 frames x 6 scales, StateVector or Orbit (Kepler / J2 / no propagator) in cartesian / keplerian / spherical / keplerian_mean / equinoctial / cylindrical form, "
+        "name/id as attributes, keyword arguments or absent, originator, kep on/off, covariance absent/own/own by name/QSW/TNW/other inertial frame, 0-3 maneuvers ImpulsiveMan / ContinuousMan (dv or accel; date_pos start/median/stop, any case) "
+        "in None/QSW/TNW (any case)/own frame by name/other inertial frame with comment absent/empty/one word/several words, user-defined fields absent/empty/1/2-4 with underscores, digits, lower case, CCSDS keywords, one a prefix of another; "
+        "OMM: via Tle or direct, classification / ephemeris type, covariance, user-defined; OEM: 1-3 segments of 1-12 points with 0..n covariances, linear/lagrange, orders, name absent; TDM: 1-2 paths of 2-4 hops with 2-3 participants, 1-10 epochs, "
+        "Range/Azimut/Elevation(/Doppler), built by append or from a list), restricted to one time scale / cartesian points / non-Keplerian maneuvers for the structural model, format by fmt= (4/5) or configuration (1/5); per object 2 round trips + 4 re-dumps; "
+        "plus the ext operations: thrust window (date_pos x duration x date), stamp (site x TIME_SYSTEM x scale), form (fmt x form), kepl (kind); a case is one request line, distinct = distinct line. "
+        "oracle: the same generators (plus Keplerian maneuvers, non-cartesian OEM points, dates labelled in another scale) and the fixed witness objects; loads(dumps(x)) compared with the ORIGINAL object field by field with the property's tolerances "
+        "(epochs: label + clock, or instant for a secondary date labelled otherwise; thrust window start and stop; delta-v; effect of the maneuver on the orbit; frames), KVN vs XML agreement, re-dump of everything loaded, and for every written text its "
+        "variants in the optional notations the readers accept (same object, re-dump); failure family = exception type @ innermost beyond/io/ccsds function (or field that differs) + input class")
 
 FRAMES = ["EME2000", "MOD", "TOD", "TEME", "PEF", "ITRF", "TIRF", "CIRF", "GCRF", "G50"]
 SCALES = ["UTC", "TAI", "TT", "GPS", "UT1", "TDB"]
@@ -1319,6 +1336,21 @@ def read_tables():
     conv = lambda fn: any(x in ast.get_source_segment(src["oem.py"], _func(oem, fn)) for x in ('.form = "cartesian"', 'form="cartesian"'))
     t["oemKvnConvertsForm"], t["oemXmlConvertsForm"] = conv("_dumps_kvn"), conv("_dumps_xml")
     t["opmWritesKeplerian"] = "dkep2dv" in src["opm.py"] or "Keplerian" in src["opm.py"].replace("Keplerian elements", "")
+    # the USER_DEFINED_ prefix of the KVN keys: writers `f"USER_DEFINED_{k} = {v}\\n"`, readers `k.startswith(P)` ... `k[N:]`
+    wp, rp, rs = set(), set(), set()
+    for mod, name in ((opm, "opm.py"), (omm, "omm.py")):
+        for n in ast.walk(_func(mod, "_dumps_kvn")):
+            if isinstance(n, ast.JoinedStr) and n.values and isinstance(n.values[0], ast.Constant) and str(n.values[0].value).startswith("USER_DEFINED"):
+                wp.add(n.values[0].value)
+        fn = _func(mod, "_loads_kvn")
+        for n in ast.walk(fn):
+            if isinstance(n, ast.Call) and isinstance(n.func, ast.Attribute) and n.func.attr == "startswith" and n.args and str(_const(n.args[0])).startswith("USER_DEFINED"):
+                rp.add(n.args[0].value)
+            if isinstance(n, ast.Subscript) and isinstance(n.slice, ast.Slice) and n.slice.upper is None and isinstance(_const(n.slice.lower), int) and isinstance(n.value, ast.Name):
+                rs.add(n.slice.lower.value)
+    if len(wp) != 1 or len(rp) != 1 or len(rs) != 1:
+        raise RuntimeError(f"cannot read how the KVN readers/writers spell user-defined keys: writers {sorted(wp)}, readers startswith {sorted(rp)}, slice {sorted(rs)}")
+    t["udWritePrefix"], t["udReadPrefix"], t["udReadSkip"] = wp.pop(), rp.pop(), rs.pop()
     # frames (live objects, through the writers' own expressions)
     from beyond.frames import get_frame
     ft = []
@@ -1368,6 +1400,9 @@ def extract(ctx):
          f"def oemKvnConvertsForm : Bool := {b(t['oemKvnConvertsForm'])}",
          f"def oemXmlConvertsForm : Bool := {b(t['oemXmlConvertsForm'])}",
          f"def opmWritesKeplerian : Bool := {b(t['opmWritesKeplerian'])}",
+         f"def udWritePrefix : String := {json.dumps(t['udWritePrefix'])}",
+         f"def udReadPrefix : String := {json.dumps(t['udReadPrefix'])}",
+         f"def udReadSkip : Nat := {t['udReadSkip']}",
          "end BeyondVerif.Generated"]
     ch2 = core.write_if_changed(os.path.join(core.LEAN, "BeyondVerif", "Generated", "CcsdsExtTables.lean"), "\n".join(E) + "\n")
     return (["Generated/CcsdsTables.lean"] if ch else []) + (["Generated/CcsdsExtTables.lean"] if ch2 else [])
@@ -1559,6 +1594,17 @@ def ext_cases(rng, n):
         except Exception as e:
             real = f"err {type(e).__name__}"
         out.append((f"c13 ext stamp {site} {msg} {sc} {clock} {off_s} {off_m}", real, {"op": "stamp", "site": site, "fmt": fmt, "msg": msg, "scale": sc, "clock": clock}))
+    for i in range(max(4, n // 3)):
+        name = _ud_key(rng).replace(" ", "")
+        typ = "opm" if i % 2 == 0 else "omm"
+        try:
+            obj, kw = build(witness_specs()[4 if typ == "opm" else 7])
+            obj._data["ccsds_user_defined"] = {name: "v"}
+            back = loads(dumps(obj, fmt="kvn"))._data.get("ccsds_user_defined", {})
+            real = list(back)[0] if len(back) == 1 else ("none" if not back else "several")
+        except Exception as e:
+            real = f"err {type(e).__name__}"
+        out.append((f"c13 ext udkey {name}", real, {"op": "udkey", "type": typ, "name": name}))
     for fmt in ("kvn", "xml"):
         for form in FORMS[1:]:
             pts = [_sv0("UTC", ep + k * 60 * 10**6, float(k)) for k in range(2)]
